@@ -197,6 +197,11 @@ func (c *Ctx) script(class string) []string {
 	case "progress-from-signing":
 		return cat(toActing, []string{"Update"}, c.someSigs(), []string{"SetRegistered", "SetProgressing"}, c.someSigs(),
 			[]string{"SetProgressed", "SetProgressing", "SetProgressed", "SetWithdrawing", "SetWithdrawn"})
+	case "boundary": // first, last and a middle signature slot, then a restaged state
+		return []string{"Init", "Sig", fmt.Sprintf("AddSig:%d", (c.Me+1)%c.N), fmt.Sprintf("AddSig:%d", c.N-1),
+			fmt.Sprintf("AddSig:%d", c.N/2), fmt.Sprintf("AddSig:%d", 9%c.N), fmt.Sprintf("AddSig:%d", 10%c.N)}
+	case "boundary-lifecycle": // every slot once, through to removal
+		return cat(toActing, []string{"Update", "Sig", fmt.Sprintf("AddSig:%d", c.N-1), "SetRegistered", "SetWithdrawing", "SetWithdrawn"})
 	case "init-resign":
 		return cat([]string{"Init"}, c.someSigs())
 	}
